@@ -1385,3 +1385,95 @@ Proof.
   unfold uniformb, uniform. rewrite forallb_forall. intros H infos Hin.
   specialize (H _ Hin). cbn beta iota in H. exact (has_shapeb_sound _ _ _ H).
 Qed.
+
+(* ------------------------------------------------------------------------- *)
+(* what MultiStatistics.compile returns meets the uniformity hypothesis         *)
+(* ------------------------------------------------------------------------- *)
+Lemma inject_no_dict e k d : ~ In (k, VDict d) (inject e).
+Proof. unfold inject. intro H. apply in_map_iff in H as (x & E & _). discriminate. Qed.
+
+Lemma dict_set_In {V} k (v : V) d kv : In kv (dict_set k v d) -> snd kv = v \/ In kv d.
+Proof.
+  induction d as [|[k0 v0] r IH]; cbn.
+  - intros [<-|[]]. now left.
+  - destruct (k =? k0); cbn; intros [<-|H]; auto. destruct (IH H); auto.
+Qed.
+
+Lemma dict_update_In {V} (d u : list (name * V)) kv :
+  In kv (dict_update d u) -> In kv d \/ In (snd kv) (map snd u).
+Proof.
+  unfold dict_update. revert d; induction u as [|[k0 v0] r IH]; intros d H; cbn in *; auto.
+  apply IH in H as [H|H]; auto. apply dict_set_In in H as [H|H]; auto.
+Qed.
+
+Lemma update_inject_no_dict e a k d : ~ In (k, VDict d) (dict_update (inject e) (inject a)).
+Proof.
+  intro H. apply dict_update_In in H as [H|H].
+  - eapply inject_no_dict; eauto.
+  - cbn in H. unfold inject in H. rewrite map_map in H. apply in_map_iff in H as (x & E & _). discriminate.
+Qed.
+
+Lemma compiled_infos_shape gen rec :
+  NoDup (map fst gen ++ map fst rec) -> Forall (fun kr => NoDup (map fst (snd kr))) rec ->
+  has_shape (compiled_infos gen rec) (Sh (map (fun kr => (fst kr, Sh [])) rec)).
+Proof.
+  intros ND F. unfold compiled_infos. constructor.
+  - rewrite map_app, inject_names, map_map. exact ND.
+  - rewrite map_map. cbn. eapply NoDup_app_r; eauto.
+  - intro k. rewrite map_map. cbn. split.
+    + intro H. apply in_map_iff in H as (kr & <- & Hin). exists (inject (snd kr)).
+      apply in_or_app. right. apply in_map_iff. exists kr. auto.
+    + intros (d & H). apply in_app_or in H as [H|H]; [exfalso; eapply inject_no_dict; eauto|].
+      apply in_map_iff in H as (kr & E & Hin). injection E as <- _. now apply in_map.
+  - intros k d s Hd Hs. apply in_map_iff in Hs as (kr' & E & _). injection E as _ <-.
+    apply in_app_or in Hd as [Hd|Hd]; [exfalso; eapply inject_no_dict; eauto|].
+    apply in_map_iff in Hd as (kr & E & Hin). injection E as _ <-.
+    rewrite Forall_forall in F. specialize (F _ Hin).
+    constructor.
+    + apply update_NoDup. now rewrite inject_names.
+    + constructor.
+    + intro k'. split; [intros []|]. intros (d' & H). exfalso. eapply update_inject_no_dict; eauto.
+    + intros k' d' s' _ [].
+Qed.
+
+(* every history made of such records, for one MultiStatistics object, is uniform *)
+Lemma multistats_history_uniform {A B} (m : mstats A B Z) (gens : list (entry * list A)) :
+  Forall (fun ns => NoDup (map fst (s_funs (snd ns)))) m ->
+  Forall (fun gd => NoDup (map fst (fst gd) ++ map fst m)) gens ->
+  uniform (Sh (map (fun ns => (fst ns, Sh [])) m))
+          (map (fun gd => ORecord (compiled_infos (fst gd) (ms_compile m (snd gd)))) gens).
+Proof.
+  intros Fm Fg infos Hin. apply in_map_iff in Hin as ([gen data] & E & Hg). injection E as <-. cbn [fst snd].
+  rewrite Forall_forall in Fg. specialize (Fg _ Hg). cbn in Fg.
+  replace (map (fun ns => (fst ns, Sh [])) m)
+    with (map (fun kr : name * list (name * Z) => (fst kr, Sh [])) (ms_compile m data))
+    by (unfold ms_compile; rewrite map_map; reflexivity).
+  apply compiled_infos_shape.
+  - now rewrite ms_compile_names.
+  - unfold ms_compile. rewrite Forall_map. cbn. rewrite Forall_forall in *. intros ns Hns.
+    rewrite compile_names. now apply Fm.
+Qed.
+
+Lemma map_fst_combine {A B} (a : list A) (b : list B) : length a = length b -> map fst (combine a b) = a.
+Proof. revert b; induction a as [|x r IH]; intros [|y b] H; cbn in *; try lia; auto. f_equal. apply IH. lia. Qed.
+
+(* one record per generation, in the logbook and in every chapter *)
+Lemma generations_logged {A B} (m : mstats A B Z) (gens : list (entry * list A)) path c :
+  Forall (fun ns => NoDup (map fst (s_funs (snd ns)))) m ->
+  Forall (fun gd => NoDup (map fst (fst gd) ++ map fst m)) gens ->
+  let h := map (fun gd => ORecord (compiled_infos (fst gd) (ms_compile m (snd gd)))) gens in
+  let l := st_lb (final init_state h) in
+  ids l = seq 0 (length gens) /\ (find_path path l = Some c -> ids c = seq 0 (length gens)).
+Proof.
+  intros Fm Fg h l.
+  assert (Hnd : forallb (fun o => negb (is_delete o)) h = true).
+  { subst h. induction gens; cbn; auto. apply IHgens. now inversion Fg. }
+  assert (Hrec : length (recorded h) = length gens).
+  { subst h. clear. induction gens; cbn; auto. }
+  assert (Hids : ids l = seq 0 (length gens)).
+  { subst l. unfold ids. rewrite (records_all_without_delete h Hnd), Hrec.
+    apply map_fst_combine. now rewrite seq_length, map_length. }
+  split; auto. intro Hp.
+  destruct (chapter_aligned _ h path c (multistats_history_uniform m gens Fm Fg) Hp) as [E _].
+  fold l in E. congruence.
+Qed.
